@@ -600,3 +600,70 @@ package nitro
 //@ func verifYield
 //@ trusted test-only scheduling hook (no-op without the verif tag; with it, calls a test-installed function that only blocks)
 //@ pure-call
+
+// ---------------------------------------------------------------------------
+// C11: restore. The shard readers must keep draining the work channel (unbuffered, fed by LoadFromDisk) whatever
+// they read; shard indexes received satisfy the channel invariant established by the feeder.
+// ---------------------------------------------------------------------------
+
+//@ func (*Nitro).LoadFromDisk$3
+//@ props C11
+//@ drains
+//@ requires len(readers) == len(errors) && len(readers) == len(segments)
+//@ recv k assume 0 <= k && k < len(readers) && readers[k] != nil && segments[k] != nil
+//@ modifies elems(errors), heap(rawFileReader.checksum), heap($g.rpos), mem(uint8), mem(ptr), heap($alive), heap($brk), heap(skiplist.Segment.$sq0), heap(skiplist.Segment.$cnt), heap(skiplist.Node.$nx), heap(skiplist.Node.$del), heap(skiplist.Skiplist.level)
+//@ modifies heap(skiplist.Stats.nodeAllocs), heap(skiplist.Stats.usedBytes), heap(skiplist.Stats.levelNodesCount)
+//@ loop 1 invariant len(readers) == len(errors) && len(readers) == len(segments)
+//@ loop 2 invariant len(readers) == len(errors) && len(readers) == len(segments) && 0 <= shard && shard < len(readers) && r != nil
+
+//@ func (*Nitro).LoadFromDisk$5
+//@ props C11
+//@ drains
+//@ requires len(readers) == len(errors) && 0 <= id && id < len(writers)
+//@ recv k assume 0 <= k && k < len(readers) && readers[k] != nil
+//@ modifies elems(errors), heap(rawFileReader.checksum), heap($g.rpos), mem(uint8), heap($alive), heap($brk), heap(skiplist.Node.$nx), heap(skiplist.Node.$del), heap(skiplist.Skiplist.level), heap(Writer.resSts.DeltaRestored)
+//@ modifies heap(skiplist.Stats.nodeAllocs), heap(skiplist.Stats.usedBytes), heap(skiplist.Stats.levelNodesCount), heap(skiplist.Stats.insertConflicts), heap(skiplist.Stats.readConflicts), heap(skiplist.Stats.softDeletes), heap(skiplist.Stats.nodeFrees), heap(restoreStats.DeltaRestored), heap(restoreStats.DeltaRestoreFailed), heap($g.mlive)
+//@ call (*skiplist.Skiplist).Insert2 havoc heap(Node.$nx), heap(Node.$del), heap($alive), heap($brk), heap(Stats.nodeAllocs), heap(Stats.usedBytes), heap(Stats.levelNodesCount), heap(Stats.insertConflicts), heap(Stats.readConflicts), heap(Stats.softDeletes)
+//@ loop 1 invariant len(readers) == len(errors) && 0 <= id && id < len(writers)
+//@ loop 2 invariant len(readers) == len(errors) && 0 <= id && id < len(writers) && 0 <= shard && shard < len(readers) && r != nil
+
+// LoadFromDisk: no index panics whatever the manifests contain, and a manifest decode error is never ignored.
+// Every loop is a full cut (the function is long): what is known after a loop is its invariant.
+//@ pure ldLens(n int, readers []FileReader, errors []error) bool = len(readers) == n && len(errors) == n
+
+//@ func (*Nitro).LoadFromDisk
+//@ props C11
+//@ use errs-nonnil
+//@ requires m != nil && concurr >= 1 && m.store != nil
+//@ modifies *
+//@ send v assert[work-index] 0 <= v && v < len(readers) && readers[v] != nil
+//@ call (*skiplist.Builder).Assemble havoc heap(Node.$nx), heap(Node.$del), heap($alive), heap($brk), heap(Skiplist.$phys), heap(Skiplist.$n)
+//@ call (*nitro.Nitro).NewSnapshot havoc heap(Nitro.currSn), heap(Nitro.itemsCount), heap(Writer.count), heap(Writer.gchead), heap(Writer.gctail), heap(Node.Link), heap($alive), heap($brk), heap(Skiplist.$set), heap(Node.$nx), heap(Node.$del)
+//@ call (*skiplist.Skiplist).FreeNode havoc heap(Stats.nodeFrees)
+//@ call (*skiplist.Skiplist).GetStats havoc none
+//@ call (*skiplist.Builder).NewSegment havoc heap($alive), heap($brk)
+//@ call skiplist.NewBuilderWithConfig havoc heap($alive), heap($brk)
+//@ loop 1 cut
+//@ loop 2 cut
+//@ loop 3 cut
+//@ loop 4 cut
+//@ loop 5 cut
+//@ loop 6 cut
+//@ loop 7 cut
+//@ loop 8 cut
+//@ loop 9 cut
+//@ loop 10 cut
+//@ loop 1 invariant[ctx] m != nil && jsonFail == old(jsonFail) && -1 <= rangeindex && rangelen == len(files) && ldLens(len(files), readers, errors) && len(segments) == len(files) && len(checksums) == len(files) && concurr >= 1
+//@ loop 1 invariant[opened] forall k int {readers[k]} :: 0 <= k && k <= rangeindex && k < len(files) ==> readers[k] != nil
+//@ loop 2 invariant[ctx] m != nil && jsonFail == old(jsonFail) && 0 <= i && ldLens(len(files), readers, errors) && len(segments) == len(files) && len(checksums) == len(files) && (forall k int {readers[k]} :: 0 <= k && k < len(files) ==> readers[k] != nil)
+//@ loop 3 invariant[ctx] m != nil && jsonFail == old(jsonFail) && -1 <= rangeindex && rangelen == len(files) && ldLens(len(files), readers, errors) && len(checksums) == len(files) && (forall k int {readers[k]} :: 0 <= k && k < len(files) ==> readers[k] != nil)
+//@ loop 4 invariant[ctx] m != nil && jsonFail == old(jsonFail) && -1 <= rangeindex && rangelen == len(readers) && ldLens(len(files), readers, errors) && len(checksums) == len(files) && (forall k int {readers[k]} :: 0 <= k && k < len(files) ==> readers[k] != nil)
+//@ loop 5 invariant[ctx] m != nil && jsonFail == old(jsonFail) && -1 <= rangeindex && rangelen == len(errors)
+//@ loop 6 invariant[ctx] m != nil && jsonFail == old(jsonFail) && -1 <= rangeindex && rangelen == len(files) && ldLens(len(files), readers, errors) && len(deltaChecksums) == len(files) && len(writers) == concurr && concurr >= 1
+//@ loop 6 invariant[opened] forall k int {readers[k]} :: 0 <= k && k <= rangeindex && k < len(files) ==> readers[k] != nil
+//@ loop 7 invariant[ctx] m != nil && jsonFail == old(jsonFail) && 0 <= i && ldLens(len(files), readers, errors) && len(deltaChecksums) == len(files) && len(writers) == concurr && concurr >= 1 && (forall k int {readers[k]} :: 0 <= k && k < len(files) ==> readers[k] != nil)
+//@ loop 8 invariant[ctx] m != nil && jsonFail == old(jsonFail) && -1 <= rangeindex && rangelen == len(files) && ldLens(len(files), readers, errors) && len(deltaChecksums) == len(files) && (forall k int {readers[k]} :: 0 <= k && k < len(files) ==> readers[k] != nil)
+//@ loop 9 invariant[ctx] m != nil && jsonFail == old(jsonFail) && -1 <= rangeindex && rangelen == len(readers) && ldLens(len(files), readers, errors) && len(deltaChecksums) == len(files) && (forall k int {readers[k]} :: 0 <= k && k < len(files) ==> readers[k] != nil)
+//@ loop 10 invariant[ctx] m != nil && jsonFail == old(jsonFail) && -1 <= rangeindex && rangelen == len(errors)
+//@ ensures[decode-error-reported] result1 == nil ==> jsonFail == old(jsonFail)
+//@ nopanic
